@@ -14,7 +14,7 @@ pub struct Svc {
 
 impl Svc {
     pub fn new(log: SharedLog) -> Self {
-        Svc { log, state: nt::State::new(Val { v: 0 }), jobs: HashMap::new(), scratch: String::new() }
+        Svc { log, state: nt::State::new(Val { v: 0, pad: String::new() }), jobs: HashMap::new(), scratch: String::new() }
     }
 }
 
@@ -34,8 +34,8 @@ impl Service for Svc {
                 MethodReply::Single(Some(Rep { client, seq, body: &self.scratch }))
             }
             M::Fail { client, seq } => MethodReply::Error(E::Failed { client, seq }),
-            M::Set { client, seq, v } => {
-                self.state.set(Val { v }).await;
+            M::Set { client, seq, v, size } => {
+                self.state.set(Val { v, pad: super::reply_body(7, v as u32, size) }).await;
                 MethodReply::Single(Some(Rep { client, seq, body: "" }))
             }
             M::Watch { .. } => MethodReply::Multi(self.state.stream()),
@@ -46,7 +46,7 @@ impl Service for Svc {
             }
             M::Finish { client, seq, job_client, job_seq, v } => {
                 if let Some(once) = self.jobs.remove(&(job_client, job_seq)) {
-                    once.notify(Val { v });
+                    once.notify(Val { v, pad: String::new() });
                 }
                 MethodReply::Single(Some(Rep { client, seq, body: "" }))
             }
